@@ -125,5 +125,37 @@ func C14(seed int64, n int) (*cq.Set, *cq.Interner) {
 		set.Cases = append(set.Cases, cq.Case{Term: term, Key: PodKey(a), Nontrivial: len(a.Annotations) >= 2, Tags: []string{fmt.Sprintf("annotations:%d", len(a.Annotations))},
 			Sample: map[string]interface{}{"pod": pod}, Uses: in.TakeUses()})
 	}
+	// many goroutines evaluating DIFFERENT, never-seen pods at once (process-wide caches keyed by
+	// pod content would be written concurrently)
+	var wg sync.WaitGroup
+	var mu sync.Mutex
+	bad := 0
+	for g := 0; g < 16; g++ {
+		wg.Add(1)
+		seedg := r.Int63()
+		go func(g int) {
+			defer wg.Done()
+			rr := rand.New(rand.NewSource(seedg))
+			for i := 0; i < 150; i++ {
+				pod := mapHeavy(rr)
+				for ci := range pod.Spec.Containers {
+					pod.Spec.Containers[ci].Ports = append(pod.Spec.Containers[ci].Ports, corev1.ContainerPort{HostPort: int32(1000 + g*4000 + i*7 + ci)})
+					pod.Spec.Containers[ci].Name = fmt.Sprintf("c-%d-%d-%d", g, i, ci)
+				}
+				pod.Annotations[podgen.AppArmorPrefix+fmt.Sprintf("x-%d-%d", g, i)] = fmt.Sprintf("profile-%d-%d", g, i)
+				_, a1 := sparseVector(cq.NewInterner(), o.Revs, pod)
+				_, a2 := sparseVector(cq.NewInterner(), o.Revs, pod)
+				if !reflect.DeepEqual(a1, a2) {
+					mu.Lock()
+					bad++
+					mu.Unlock()
+				}
+			}
+		}(g)
+	}
+	wg.Wait()
+	if bad > 0 {
+		set.GoFails = append(set.GoFails, cq.GoFail{What: fmt.Sprintf("%d pods evaluated concurrently with other fresh pods gave two different results for the same pod", bad), Replay: map[string]interface{}{"goroutines": 16}})
+	}
 	return set, in
 }
